@@ -9,6 +9,16 @@ CHECKS = {
             "Seeded search over generated streams (all header-flag combinations, both byte orders and framings, payload classes up to the maximum, marker-free noise runs incl. runs longer than the reader's low mark) read through the real iterator on a slice, a Cursor and LowMarkBufReader over a scripted short-read source; every message compared field by field with the generator's ground truth, counters checked against the noise bookkeeping. Sampling, not proof.",
             "Trusts the independent encoder in gen_dlt.rs as the definition of the wire format; I/O errors of the source are not injected (outside the quantifier).",
             "DESIGN.md §6 C01"),
+    "C02": ("streamsim", "exploration",
+            "deterministic simulation: scripted short-write/EINTR sinks and short-read sources around the real writer and parser",
+            "Seeded search: every message parsed from a generated well-formed stream is written through a scripted sink (short writes, EINTR before any byte), re-parsed, compared on the promised fields and re-written (normal form); the whole export is re-read through LowMarkBufReader over a scripted short-read source and exported again (byte-identical). Sampling, not proof.",
+            "Fields the statement does not promise are not compared; the end-to-end `convert -o` path belongs to C14.",
+            "DESIGN.md §6 C02"),
+    "C04": ("streamsim", "exploration",
+            "deterministic simulation: scripted read schedules (incl. adversarial buffer-edge schedule) and model-based operation histories on the buffering reader",
+            "Seeded search over (i) byte images with embedded/foreign markers, corrupted, truncated and near-maximum messages, parsed from the whole slice (reference) and through LowMarkBufReader geometries x read schedules down to 1 byte and an adversarial schedule that stops 0..7 bytes after each message, plus suffix runs; (ii) random fill/consume/read/seek histories on LowMarkBufReader against a position model (exact bytes, low-mark look-ahead until EOF, no early EOF). Sampling, not proof.",
+            "The whole-slice parse is the reference; I/O errors are outside the quantifier; a refused seek is fine, wrong bytes after an accepted seek are a violation.",
+            "DESIGN.md §6 C04"),
 }
 
 NOT_APPLICABLE = {
